@@ -20,6 +20,8 @@ struct Z {
 	~Z() { mpz_clear(v); }
 	operator mpz_ptr() { return v; }
 	operator mpz_srcptr() const { return v; }
+	__mpz_struct *operator->() { return v; }
+	const __mpz_struct *operator->() const { return v; }
 };
 typedef std::map<std::string, Z> Fields;
 
